@@ -1,7 +1,14 @@
 #!/bin/bash
-# Build the Lean side from files on disk only (no network): library (models, proofs,
-# property theorems) and all native drivers.
+# Build the Lean side from files on disk only (no network): models, proofs, property
+# theorems (every RV/Props/*.lean) and all native drivers whose root file exists.
 set -e
 cd "$(dirname "$0")/lean"
-exes=$(grep -A1 '^\[\[lean_exe\]\]' lakefile.toml | grep '^name' | sed 's/.*"\(.*\)"/\1/')
-lake build RV $exes
+props=$(ls RV/Props/*.lean 2>/dev/null | sed 's/\.lean$//; s#/#.#g')
+exes=""
+for e in $(grep -A2 '^\[\[lean_exe\]\]' lakefile.toml | grep '^name' | sed 's/.*"\(.*\)"/\1/'); do
+  root=$(grep -A2 "name = \"$e\"" lakefile.toml | grep '^root' | sed 's/.*"\(.*\)"/\1/')
+  f=$(echo "$root" | sed 's#\.#/#g').lean
+  [ -f "$f" ] && exes="$exes $e"
+done
+echo "building: $props $exes"
+lake build RV $props $exes
